@@ -19,10 +19,11 @@ component of the mechanism key (`multi-level/<escape:Exc|stale-hook|
 missing-hook|...>`), cf. DESIGN.md section 4 C08 N, F15, F16.  A second, much
 narrower signature (`set-equal-twin/...`) marks set operations whose argument
 is equal to, hash-equal to, but not identical with a stored element; it can
-only arise in the enumerated stratum 'e'.  A third (`unread-default-self-assign/
-...`) marks the assignment of a trait's constant default object to the trait
-before the default was ever read; it is drawn only in the enumerated stratum
-'m' (the random generators reject it).  Every other disagreement is keyed
+only arise in the enumerated stratum 'e'.  A third (`unread-default-assign/...`)
+marks an assignment to a trait whose observable constant default was never
+read, when the default object is the assigned value itself or is reached along
+another path; it is drawn only in the enumerated stratum 'm' (the random
+generators reject it).  Every other disagreement is keyed
 `<complaint>/<what was observed>/after:<class of the last structural op>`.
 
 Histories are concrete, replayable operation lists (indices into the pool,
@@ -623,7 +624,7 @@ class World:
             "__module__": __name__})
         self.pool = [self.cls(ser=i) for i in range(spec["npool"])] + [self.shared]
         self.last_rep = None
-        self.selfdef = False       # sticky signature, see is_self_default
+        self.selfdef = False       # sticky signature, see unread_default_assign
         self.added = {}            # id(node) -> {name: kind}
         self.retired = []          # [(label, kind, container)]
         self.regs = []
@@ -1164,15 +1165,22 @@ class World:
             return [t for t in out if t is not None]
         return []
 
-    def is_self_default(self, op):
-        """Structural signature `unread-default-self-assign`: the constant default
-        object itself is assigned to the trait before the default was ever read
-        (setattr materialises the default silently and sees no change)."""
-        if op[0] != "set" or op[2] != "cdef" or op[3] is None:
+    def unread_default_assign(self, op):
+        """Structural signature `unread-default-assign`: an assignment to a trait
+        whose constant default (an observable object) was never read, while that
+        default object is the assigned value itself or is currently reached by a
+        registration along another path.  (setattr materialises the default
+        silently as `old`: assigning the default itself is "no change", and the
+        maintainers un-hook `old` although they never hooked it on this path.)"""
+        if op[0] != "set" or op[2] != "cdef":
             return False
         a = self.node(op[1])
-        return (a is not None and type(a) is self.cls and "cdef" not in a.__dict__
-                and self.node(op[3]) is self.shared)
+        if a is None or type(a) is not self.cls or "cdef" in a.__dict__:
+            return False
+        if op[3] is not None and self.node(op[3]) is self.shared:
+            return True
+        sid = id(self.shared)
+        return any(k[0] == "t" and k[1] == sid for m in self.models for k in m.depths)
 
     def would_cycle(self, op):
         a = self.node(op[1])
@@ -1197,7 +1205,7 @@ class World:
             {"l": "list-mutation", "d": "dict-mutation", "s": "set-mutation"}[k]
         if k == "set":
             _, _, tr, b = op
-            if self.is_self_default(op):
+            if self.unread_default_assign(op):
                 self.selfdef = True
             if not self.has(a, tr):
                 return
@@ -1551,7 +1559,7 @@ def make_key(W, c):
     if W.twin:
         return "set-equal-twin/" + c.what
     if W.selfdef:
-        return "unread-default-self-assign/" + c.what
+        return "unread-default-assign/" + c.what
     if c.kind:
         return "%s/%s/after:%s" % (c.what, c.kind, W.opclass)
     return "%s/after:%s" % (c.what, W.opclass)
@@ -1860,7 +1868,7 @@ def gen_op(rng, W, names, cyclic):
                 op = ["s", a, tr, m, [pick_b(a, False) for _ in range(rng.randint(1, 3))]]
         if not cyclic and W.would_cycle(op):
             continue
-        if W.is_self_default(op):
+        if W.unread_default_assign(op):
             continue                   # drawn in stratum 'm' only (open finding)
         return op
     return ["set", rng.randrange(n), "child", None]
@@ -2020,7 +2028,7 @@ def random_history(ctx, rng, stratum):
             return ["observe", item[1]]
         if item[0] == "op":
             op = item[1]
-            if not cyc and W.would_cycle(op):
+            if (not cyc and W.would_cycle(op)) or W.unread_default_assign(op):
                 return ["read", op[1], "child"]
             return op
         if W.last_rep is not None:
@@ -2092,6 +2100,14 @@ def multiplicity_cases():
         out.append(("const", parse_text("child.cdef.value"), "nested-read", "text", flav,
                     [["set", 0, "child", 1], ["observe", 0], ["read", 1, "cdef"], ["set", 0, "child", 2],
                      ["read", 2, "cdef"], ["set", 1, "cdef", None]]))
+        out.append(("const", parse_text("children.items.cdef:value"), "unread-assign-shared-hooked",
+                    "text", flav,
+                    [["setcont", 0, "children", [1, 2]], ["read", 2, "cdef"], ["observe", 0],
+                     ["set", 1, "cdef", 2]]))
+        out.append(("const", parse_text("[child,other].cdef.value"), "unread-assign-shared-hooked",
+                    "expr", flav,
+                    [["set", 0, "child", 1], ["set", 0, "other", 2], ["observe", 0], ["read", 1, "cdef"],
+                     ["set", 2, "cdef", None]]))
         out.append(("const", parse_text("children.items.cdef:value"), "items-read", "expr", flav,
                     [["setcont", 0, "children", [1, 2]], ["observe", 0], ["read", 2, "cdef"],
                      ["read", 1, "cdef"], ["l", 0, "children", "delitem", 0]]))
